@@ -469,8 +469,53 @@ func r12_2(c *RC) {
 	scs = append(scs, scenario{"well-known-local-name|no flags", map[string]cval{"len:net.IP": cInt(0), "len:[]string": cInt(4), "ParseIP": {isNil: true}, "EqualFold": cBool(true), "IsLoopback": cBool(true), "IsPrivate": cBool(false), "IsUnspecified": cBool(false), "GetAllowLoopbackIP": cBool(false), "GetAllowPrivateIP": cBool(false)}, merge(noFlags, map[string]cval{"FQDN": cStr("LocalHost")}), false})
 	// ordinary name
 	scs = append(scs, scenario{"ordinary-name|no flags", map[string]cval{"len:net.IP": cInt(0), "len:[]string": cInt(4), "EqualFold": cBool(false), "GetAllowLoopbackIP": cBool(false), "GetAllowPrivateIP": cBool(false)}, merge(noFlags, map[string]cval{"FQDN": cStr("example.com")}), true})
+	// an address that carries both an IP and a (stale or decorative) name is
+	// sent to the IP (AddrSpec.String / resolveSocks5UDPAddr prefer it), so
+	// the IP's class decides whatever the name is
+	for cls := 0; cls < 4; cls++ {
+		lo, pr, un := cls == 1, cls == 2, cls == 3
+		scs = append(scs, scenario{
+			name:   fmt.Sprintf("ip+name:loopback=%v,private=%v,unspecified=%v|no flags", lo, pr, un),
+			calls:  map[string]cval{"len:net.IP": cInt(4), "len:[]string": cInt(4), "ParseIP": {isNil: true}, "EqualFold": cBool(false), "IsLoopback": cBool(lo), "IsPrivate": cBool(pr), "IsUnspecified": cBool(un), "GetAllowLoopbackIP": cBool(false), "GetAllowPrivateIP": cBool(false)},
+			fields: merge(noFlags, map[string]cval{"FQDN": cStr("example.com")}),
+			want:   cls == 0,
+		})
+	}
 	for _, sc := range scs {
-		f := &Folder{P: p, Assume: assumeBy(sc.calls, sc.fields)}
+		// len(ip) follows the value ip has on the path: nil (dst.IP absent, or
+		// net.ParseIP failed) has length 0, anything else the scenario's
+		// address length
+		calls := map[string]cval{}
+		for k, v := range sc.calls {
+			calls[k] = v
+		}
+		ipLen := calls["len:net.IP"]
+		delete(calls, "len:net.IP")
+		fields := map[string]cval{}
+		for k, v := range sc.fields {
+			fields[k] = v
+		}
+		if l, _ := constant.Int64Val(ipLen.v); ipLen.known && l == 0 {
+			fields["IP"] = cval{isNil: true}
+		} else {
+			fields["IP"] = cval{nonNil: true}
+		}
+		f := &Folder{P: p, Assume: assumeBy(calls, fields), CallHook: func(call *ssa.Call, args []cval) (cval, bool) {
+			if b, ok := call.Call.Value.(*ssa.Builtin); ok && b.Name() == "len" && len(args) == 1 && call.Call.Args[0].Type().String() == "net.IP" {
+				if args[0].isNil {
+					return cInt(0), true
+				}
+				if args[0].nonNil {
+					if ipLen.known {
+						if l, _ := constant.Int64Val(ipLen.v); l > 0 {
+							return ipLen, true
+						}
+					}
+					return cInt(4), true
+				}
+			}
+			return cval{}, false
+		}}
 		outs := f.Eval(fn, []cval{{nonNil: true}, {}, cStr("someuser")})
 		sawT, sawF, sawU := false, false, false
 		for _, o := range outs {
